@@ -167,6 +167,10 @@ def _ptypes(repo):
                 if got is not want: raise Refuse(f"PType.__eq__ is not equality of keys: two objects with keys ({l._key!r}, {r._key!r}) compare {got!r}")
     if ast.unparse(meth['__hash__'].body[-1]) != 'return hash(self._key)': raise Refuse('PType.__hash__ is not hash of the key')
     if '__ne__' in meth: raise Refuse('PType.__ne__ defined')
+    # TiltInterface.__init__ tests `if not ptype:` on a caller-supplied plane type: every PType object must be truthy
+    # (the tables are evaluated with truthy plane-type values)
+    for nm in ('__bool__', '__len__'):
+        if nm in meth: raise Refuse(f'PType.{nm} defined: plane types are no longer unconditionally truthy (TiltInterface tests `if not ptype`)')
     # the names lentil.<ptype> are bound in lentil/__init__.py
     init = open(os.path.join(repo, 'lentil/__init__.py')).read()
     for p in v:
